@@ -40,6 +40,8 @@ const (
 	OpWrite     = "write"     // Collection.Write
 	OpChurn     = "churn"     // allocate and release N nodes in an unrelated store
 	OpIter      = "iter"      // iterator script (see iter.go)
+	OpBulk      = "bulk"      // bulk load: N SetItems with derived keys/values/priorities on collection C (Flag seeds the derivation)
+	OpMisc      = "misc"      // read-only conveniences: Flag selects Stats / AllocStats / Name / MarshalJSON / GetAny / ExistAny [S]
 )
 
 // Visit APIs (Op.Flag of OpVisit).
@@ -223,6 +225,10 @@ func (o Op) String() string {
 		s = fmt.Sprintf("Churn(%d)", o.N)
 	case OpIter:
 		s = fmt.Sprintf("Iter%s%s(dir %d,target %s,wv %v,script %v)", h, c, o.Flag, qb(o.Key), o.WV, o.Val)
+	case OpBulk:
+		s = fmt.Sprintf("BulkLoad%s(%d items, seed %d)", c, o.N, o.Flag)
+	case OpMisc:
+		s = fmt.Sprintf("Misc%s%s(kind %d, key %s)", h, c, o.Flag, qb(o.Key))
 	default:
 		s = o.K
 	}
